@@ -77,6 +77,45 @@ def ionicStrength [LT α] [DecidableLT α] [LE α] [DecidableLE α]
   | some tot, some net => .ok (isResult tot, warn && notNeutral net tot)
   | _, _ => .error .typeError
 
+/-! ### the other paths of `allclose` and vectorised molalities -/
+
+/-- `allclose(a, b, rtol, atol)` for two numpy arrays of the same length with an array `atol` (units.py:545-553, last return):
+    `np.all([_d <= _lim for _d, _lim in zip(d, lim)])` with `d = abs(a - b)`, `lim = abs(a) * rtol + atol` element by element -/
+def allcloseArr [LT α] [DecidableLT α] [LE α] [DecidableLE α] (a b : List α) (rtol : α) (atol : List α) : Bool :=
+  (List.zipWith (fun (xy : α × α) t => allclose xy.1 xy.2 rtol t) (a.zip b) atol).all id
+
+/-- `allclose(a, b, rtol, atol)` for a scalar `a` and a numpy array `b` (scalar `lim`, array `d`: units.py:550-551) -/
+def allcloseScalarArr [LT α] [DecidableLT α] [LE α] [DecidableLE α] (a : α) (b : List α) (rtol atol : α) : Bool :=
+  b.all fun y => allclose a y rtol atol
+
+/-- `allclose(a, b, rtol, atol)` for two Python lists of numbers (`abs(a - b)` raises, units.py:531-536): element-wise with the
+    same tolerances when the lengths agree, `False` otherwise -/
+def allcloseList [LT α] [DecidableLT α] [LE α] [DecidableLE α] (a b : List α) (rtol atol : α) : Bool :=
+  if a.length = b.length then (List.zipWith (fun x y => allclose x y rtol atol) a b).all id else false
+
+/-- `allclose(list, number)` / `allclose(number, list)`: `abs(a - b)` raises and so does `len` of the number (units.py:537-538) -/
+def allcloseListScalar : Bool := false
+
+/-- numpy `x + y` for arrays of the same length -/
+def vecAdd (x y : List α) : List α := List.zipWith (· + ·) x y
+
+/-- the accumulation idiom when every molality is a numpy array (one entry per sample): first term, then `+=` element-wise -/
+def loopSumVec (f : α → α → α) : List (List α × α) → Option (List α)
+  | [] => none
+  | p :: r => some (r.foldl (fun t q => vecAdd t (q.1.map fun b => f b q.2)) (p.1.map fun b => f b p.2))
+
+/-- `ionic_strength([array_1, ..., array_k], charges, warn=warn)` with arrays of one common length (a k×m array iterates over its
+    rows in the same way): the array of ionic strengths and ONE warning when some sample fails the neutrality test
+    (`allclose` takes its array path) -/
+def ionicStrengthVec [LT α] [DecidableLT α] [LE α] [DecidableLE α]
+    (molalities : List (List α)) (charges : List α) (warn : Bool) : Except Err (List α × Bool) :=
+  if molalities.length ≠ charges.length then .error .valueError else
+  let ps := molalities.zip charges
+  match loopSumVec isTermTot ps, loopSumVec isTermNet ps with
+  | some tot, some net =>
+    .ok (tot.map isResult, warn && !(allcloseArr net (tot.map isNeutralRef) allcloseRtol (tot.map isNeutralAtol)))
+  | _, _ => .error .typeError
+
 /-! ### dict form -/
 
 /-- ASCII white space of `str.split()` -/
@@ -205,6 +244,9 @@ def daviesActivityProduct (IS : α) (stoich z : List α) (T eps_r rho C : α) : 
   | .ok tot => .ok (HasExp.exp tot)
 
 variable [LT α] [DecidableLT α] [LE α] [DecidableLE α]
+
+/-- `_ActivityProductBase(stoich, *args)(c)` (electrolytes.py:95-96): the base class does nothing and returns `None` -/
+def baseClassCall (_stoich : List α) (_c : List α) : Option α := none
 
 /-- `LimitingDebyeHuckelActivityProduct(stoich, z, T, eps_r, rho)(c)` (electrolytes.py:257-261):
     `IS = ionic_strength(c, z)` (warn=True) and then the product; the flag says whether the neutrality warning was issued -/
